@@ -141,6 +141,17 @@ CLAIMED = {
         "Kinks and out-of-domain points are excluded; rejection (an exception) is allowed for the listed functions; tolerance 1e-9 (analytic), 1e-5 (context functions), 1e-6 (finite differences).",
         "DESIGN.md section 3, C02",
     ),
+    "C05": (
+        "Hypothesis-generated model families with constructively known steady paths; own evaluator on the returned (level, change) path at several dates; metamorphic block/variant relations",
+        "Additive linear (stationary or with an exact random walk with drift), log-linear with log-variables (stationary or balanced growth) and "
+        "anchored nonlinear models are generated with parameters, 1-2 variants, perturbed starting guesses, flat and split_into_blocks flags and "
+        "steady plans (fix_level; exogenize a variable + endogenize a parameter). Whenever solve_steady returns, the harness builds the steady "
+        "path from get_steady_levels/get_steady_changes (linear, or geometric for log-variables) and evaluates every equation as written with its "
+        "own evaluator at dates 0, 3 and -2; planned quantities must keep their values, endogenized parameters must move, flat models must "
+        "report no change, blocks on/off and variant k vs its single-variant model must agree.",
+        "Conditional on completion (non-convergence is counted, never a violation); degenerate near-zero pseudo-solutions of multiplicative equations are not judged; plans only with the nonlinear solver.",
+        "DESIGN.md section 3, C05",
+    ),
 }
 
 NOT_BUILT_REASON = "check not built yet in this round (design in DESIGN.md section 3); not claimed until it is quiet on the unchanged tree and kills its mutants"
